@@ -87,8 +87,9 @@ theorem compile_never_out_of_fuel (reg : Registry) (hreg : NoFuelMsg reg) (t : L
 
     The registry may be anything as long as every function *called in the tree* is registered with a
     builder that `Implements` the tree's meaning of it at the call's arity: for argument stages that
-    evaluate it returns, without compile error, a stage that evaluates to `fn f` of the argument values
-    (strict like `pureBuilder`, lazy like `{if}`, constant-folding … – see `Rare/Proofs/C09C10.lean`).
+    evaluate (in every context) it returns, without compile error, a stage that evaluates to `fn f` of
+    the argument values (strict like `pureBuilder`, lazy like `{if}`, probing / constant-folding … – see
+    `Rare/Proofs/C09C10.lean`; instances from the standard registry in `C09C10Std.lean`).
     Builders of other names are unconstrained (they may panic, be unmodelled, …).
 
     The optimiser-on case composes the optimiser-off round trip with C10: `optimize` returns because
